@@ -93,7 +93,9 @@ func newCorpus(name string, dom gen.Domain, nHuge, nRand int) corpus {
 	return corpus{core: coreList, nHuge: nHuge, nRand: nRand, dom: dom, name: name}
 }
 
-func (c corpus) N() int { return len(c.core) + c.nHuge + c.nRand }
+var twoBoundary = gen.TwoBoundaryPairs()
+
+func (c corpus) N() int { return len(c.core) + c.nHuge + len(twoBoundary) + c.nRand }
 
 // Get returns abstract packet idx and a label of the corpus part.
 func (c corpus) Get(env run.Env, idx int) (*ref.Packet, string) {
@@ -104,6 +106,12 @@ func (c corpus) Get(env run.Env, idx int) (*ref.Packet, string) {
 		return gen.Packet(r, cc.Type, cc.Mask, cc.Size, c.dom), "core"
 	case idx < len(c.core)+c.nHuge:
 		return gen.HugePacket(r, c.dom), "huge"
+	case idx < len(c.core)+c.nHuge+len(twoBoundary):
+		pr := twoBoundary[idx-len(c.core)-c.nHuge]
+		if p, ok := gen.TwoBoundary(r, pr[0], pr[1]); ok {
+			return p, "two-boundary"
+		}
+		return gen.Random(r, c.dom), "random"
 	}
 	return gen.Random(r, c.dom), "random"
 }
